@@ -94,6 +94,8 @@ def cases(rng, tier):
         yield rvgen.chain_case(rng, "single", trace=16, run=100)
     for i in range(n // 6):
         yield rvgen.ecall_case(rng, "single", trace=20, run=100)
+    for prog, regs in rvgen.long_programs(rng, tier):          # thousands of steps
+        yield rvgen.long_case(prog, regs, "single")
     for i in range(n // 10):
         yield rvgen.x0_dest_case(rng, "single", trace=12, run=100)
 
